@@ -459,7 +459,8 @@ NEG_CONTROLS = [("C14_Names_NC_NameReuse", "NamesUnique"),
                 ("C14_Names_NC_NoMemo", "OncePerChild"),
                 ("C14_Names_NC_SuffixByCount", "PrefixCollisionFree"),
                 ("C14_Names_NC_CopyForgets", "OncePerChild"),
-                ("C14_Names_AsCoded_Unique", "NamesUnique")]
+                ("C14_Names_AsCoded_Unique", "NamesUnique"),
+                ("C14_Names_NC_ReservedFromTable", "NamesUnique")]
 
 
 def _generate(tier, seed, out):
@@ -717,8 +718,10 @@ def run(tier, seed, out):
                 "position of every operator, Product((-1,)) is offered in every operand position; "
                 "non-trivial = root is a composite node. "
                 "name half: TLC enumerates all histories of MaxGen calls over the expression pool "
-                "of C14_CCodeNames.tla on one mapper and its copies (copy / constructor / "
-                "copy_with_mapped_cses at any point); one case = one history, always non-trivial; "
+                "of C14_CCodeNames.tla on one mapper and its copies (copy / constructor from the name "
+                "list / copy_with_mapped_cses of a new or of an already hoisted subexpression, under a "
+                "user's name or one that looks generated, at any point); one case = one history, "
+                "always non-trivial; "
                 "shared / fresh wrapper objects and the representation of the constants rotate over "
                 "the histories (driver side). "
                 "distinct by canonical JSON digest")
